@@ -617,12 +617,16 @@ func (w *World) publishedNameUse(in ssa.Instruction, helper *ssa.Function, dstId
 									default:
 										uses = append(uses, n2)
 									}
+								} else if mi, isMI := u2.(*ssa.MakeInterface); isMI && formatOnly(mi) {
+									// named in an error or log message
 								} else if _, isDbg := u2.(*ssa.DebugRef); !isDbg {
 									uses = append(uses, fmt.Sprintf("%T", u2))
 								}
 							}
 						}
 					}
+				} else if mi, isMI := u.(*ssa.MakeInterface); isMI && formatOnly(mi) {
+					// named in an error or log message
 				} else if _, isDbg := u.(*ssa.DebugRef); !isDbg {
 					uses = append(uses, fmt.Sprintf("%T", u))
 				}
@@ -963,4 +967,56 @@ func unwrapErrAP(s string) string {
 		}
 		s = s[i+1 : end]
 	}
+}
+
+// formatOnly: the interface value is only an argument of a formatting call (error wrapping, fmt, logging): it is stored into
+// the variadic argument array of such a call and goes nowhere else.
+func formatOnly(mi *ssa.MakeInterface) bool {
+	if mi.Referrers() == nil {
+		return true
+	}
+	isFmt := func(c *ssa.CallCommon) bool {
+		n := calleeName(c)
+		for _, p := range []string{"github.com/pkg/errors.", "github.com/friendsofgo/errors.", "errors.", "fmt.Sprint", "fmt.Errorf", "github.com/apex/log.", "(*github.com/apex/log.", "(github.com/apex/log.", "log."} {
+			if strings.HasPrefix(n, p) {
+				return true
+			}
+		}
+		return c.IsInvoke() && strings.Contains(c.Value.Type().String(), "apex/log")
+	}
+	for _, u := range *mi.Referrers() {
+		switch x := u.(type) {
+		case *ssa.DebugRef:
+		case *ssa.Store:
+			ia, ok := x.Addr.(*ssa.IndexAddr)
+			if !ok || x.Val != ssa.Value(mi) {
+				return false
+			}
+			al, ok := ia.X.(*ssa.Alloc)
+			if !ok || al.Referrers() == nil {
+				return false
+			}
+			for _, r := range *al.Referrers() {
+				sl, ok := r.(*ssa.Slice)
+				if !ok {
+					continue
+				}
+				if sl.Referrers() == nil {
+					continue
+				}
+				for _, rr := range *sl.Referrers() {
+					if c := callCommonOf(rr); c == nil || !isFmt(c) {
+						if _, isDbg := rr.(*ssa.DebugRef); !isDbg {
+							return false
+						}
+					}
+				}
+			}
+		default:
+			if c := callCommonOf(u); c == nil || !isFmt(c) {
+				return false
+			}
+		}
+	}
+	return true
 }
